@@ -12,13 +12,14 @@ import MvProps.CoreLemmas
 namespace Mv.Core
 
 /-- operations after which every acknowledged record has been applied to the frame table:
-    explicit commit, drop+open, crash+open (WAL replay), skip-index commit, doctor -/
+    explicit commit, drop+open, crash+open (WAL replay), skip-index commit, doctor, vacuum -/
 def Op.durable : Op → Bool
   | .commit _ => true
   | .reopen _ _ => true
   | .crash _ => true
   | .commitSkipIndexes => true
   | .doctor _ _ _ _ _ _ _ _ => true
+  | .vacuum _ _ => true
   | _ => false
 
 theorem run_append (m : Mem) (ops : List Op) (op : Op) : run m (ops ++ [op]) = (step (run m ops) op).1 := by
@@ -66,7 +67,7 @@ theorem durable_frames (m : Mem) (op : Op) (hi : Inv m) (hd : op.durable = true)
   | beginBatch d ws => cases hd
   | endBatch => cases hd
   | finalizeIndexes ft => cases hd
-  | vacuum a b => cases hd
+  | vacuum a b => exact (vacuum_spec m a b hi).1.abs_eq.symm
   | ticket s c b f => cases hd
 
 /-- **C01 (refinement).**  After ANY history the committed frames followed by what the pending WAL
